@@ -222,6 +222,83 @@ example (s : S_dnsserver_ServerBase) : acceptMsg s false 0 1 0 0 = 0 ∧ acceptM
     acceptMsg s true 5 0 9 9 = 2 ∧ acceptMsg s false 4 1 2 0 = 1 := by
   simp [acceptMsg]
 
+/-! ## `httpHandler.remoteAddr` (round 3c): from `r.RemoteAddr` to the address handed to the handlers -/
+
+/-- The data flow of `remoteAddr`, for every result of the library calls: the host part of
+`SplitHostPort(r.RemoteAddr)` goes to `strings.Cut(·, "%")`; `ParseIP` receives the part *before* the
+separator (never the zone); the address that is built (`net.UDPAddr` over HTTP/3, `net.TCPAddr`
+otherwise) gets the parsed IP, the port of `SplitHostPort` and, as `Zone`, the part *after* the separator. -/
+theorem remoteAddr_flow (h : S_dnsserver_httpHandler) (host : String) (port : Int) (raddr : String)
+    (cut : String × String × Bool) (ip : List Int) (net : String) :
+    remoteAddr h (host, port, none) raddr cut (ip, none) net =
+      some (true, [("SplitHostPort", [raddr]), ("Cut", [host, "%"]), ("ParseIP", [cut.1]), ("NetworkFromAddr", ["_"]),
+        (if net = "udp" then "new net.UDPAddr" else "new net.TCPAddr",
+          ["IP=_", "Port=" ++ toString port, "Zone=" ++ cut.2.1])]) := by
+  unfold remoteAddr
+  by_cases hn : net = "udp" <;> simp [hn]
+
+/-- The exact panic guard: `SplitHostPort` or `ParseIP` failed — nothing else. -/
+theorem remoteAddr_panics_iff (h : S_dnsserver_httpHandler) (sp : String × Int × Option String) (raddr : String)
+    (cut : String × String × Bool) (pi : List Int × Option String) (net : String) :
+    remoteAddr h sp raddr cut pi net = none ↔ sp.2.2.isSome ∨ pi.2.isSome := by
+  unfold remoteAddr
+  cases h1 : sp.2.2 <;> cases h2 : pi.2 <;> by_cases hn : net = "udp" <;> simp [h1, h2, hn]
+
+/-- `strings.Cut(s, sep)` (on valid UTF-8 text). -/
+def goCut (s sep : String) : String × String × Bool :=
+  match cutList sep.toList s.toList with
+  | none => (s, "", false)
+  | some (a, b) => (String.ofList a, String.ofList b, true)
+
+theorem cutList_percent (a b : List Char) (ha : '%' ∉ a) : cutList ['%'] (a ++ '%' :: b) = some (a, b) := by
+  induction a with
+  | nil => simp [cutList]
+  | cons c cs ih =>
+    have hc : ¬ '%' = c := fun e => ha (List.mem_cons.2 (Or.inl e))
+    have hcs : '%' ∉ cs := fun e => ha (List.mem_cons.2 (Or.inr e))
+    simp [cutList, hc, ih hcs]
+
+theorem cutList_none (a : List Char) (ha : '%' ∉ a) : cutList ['%'] a = none := by
+  induction a with
+  | nil => simp [cutList]
+  | cons c cs ih =>
+    have hc : ¬ '%' = c := fun e => ha (List.mem_cons.2 (Or.inl e))
+    have hcs : '%' ∉ cs := fun e => ha (List.mem_cons.2 (Or.inr e))
+    simp [cutList, hc, ih hcs]
+
+/-- **A zoned link-local client** (`[fe80::1%eth0]:443`): with `strings.Cut` as specified, `ParseIP` is
+given exactly the address text before the first `%` and the zone ends up in the `Zone` field. -/
+theorem remoteAddr_zone (h : S_dnsserver_httpHandler) (addr zone : List Char) (ha : '%' ∉ addr) (port : Int)
+    (raddr : String) (ip : List Int) (net : String) :
+    remoteAddr h (String.ofList (addr ++ '%' :: zone), port, none) raddr
+        (goCut (String.ofList (addr ++ '%' :: zone)) "%") (ip, none) net =
+      some (true, [("SplitHostPort", [raddr]), ("Cut", [String.ofList (addr ++ '%' :: zone), "%"]),
+        ("ParseIP", [String.ofList addr]), ("NetworkFromAddr", ["_"]),
+        (if net = "udp" then "new net.UDPAddr" else "new net.TCPAddr",
+          ["IP=_", "Port=" ++ toString port, "Zone=" ++ String.ofList zone])]) := by
+  rw [remoteAddr_flow]
+  have e : goCut (String.ofList (addr ++ '%' :: zone)) "%" = (String.ofList addr, String.ofList zone, true) := by
+    unfold goCut
+    have : ("%" : String).toList = ['%'] := by decide
+    rw [this, String.toList_ofList, cutList_percent addr zone ha]
+  rw [e]
+
+/-- … and an address without a zone is parsed whole, with an empty `Zone`. -/
+theorem remoteAddr_nozone (h : S_dnsserver_httpHandler) (addr : List Char) (ha : '%' ∉ addr) (port : Int)
+    (raddr : String) (ip : List Int) (net : String) :
+    remoteAddr h (String.ofList addr, port, none) raddr (goCut (String.ofList addr) "%") (ip, none) net =
+      some (true, [("SplitHostPort", [raddr]), ("Cut", [String.ofList addr, "%"]),
+        ("ParseIP", [String.ofList addr]), ("NetworkFromAddr", ["_"]),
+        (if net = "udp" then "new net.UDPAddr" else "new net.TCPAddr", ["IP=_", "Port=" ++ toString port, "Zone="])]) := by
+  rw [remoteAddr_flow]
+  have e : goCut (String.ofList addr) "%" = (String.ofList addr, "", false) := by
+    unfold goCut
+    have : ("%" : String).toList = ['%'] := by decide
+    rw [this, String.toList_ofList, cutList_none addr ha]
+  rw [e]; simp
+
+example : goCut "fe80::1%eth0" "%" = ("fe80::1", "eth0", true) := by decide
+
 end Agd.Tie.TrC01
 
 #print axioms Agd.Tie.TrC01.translation_complete
@@ -237,3 +314,9 @@ end Agd.Tie.TrC01
 #print axioms Agd.Tie.TrC01.httpRequestToMsgGet_tr
 #print axioms Agd.Tie.TrC01.urlQueryParameterToBoolean_tr
 #print axioms Agd.Tie.TrC01.serveDoH_tr
+#print axioms Agd.Tie.TrC01.remoteAddr_flow
+#print axioms Agd.Tie.TrC01.remoteAddr_panics_iff
+#print axioms Agd.Tie.TrC01.cutList_percent
+#print axioms Agd.Tie.TrC01.cutList_none
+#print axioms Agd.Tie.TrC01.remoteAddr_zone
+#print axioms Agd.Tie.TrC01.remoteAddr_nozone
